@@ -710,6 +710,12 @@ class Model:
                     continue
                 # only="subscripts": propagate `x = table[i]` lookups and plain
                 # aliases only, containers keep their names
+                if only == "aliases":
+                    v_ = n.value
+                    while isinstance(v_, ast.Attribute):
+                        v_ = v_.value
+                    if not isinstance(v_, ast.Name):
+                        continue
                 if only == "subscripts" and not (
                         isinstance(n.value, (ast.Subscript, ast.Attribute, ast.Name))
                         and _plain(n.value)):
